@@ -143,6 +143,20 @@ func (s ctlStream) exec(r *Run, spec string) {
 	if c == nil {
 		panic("stream " + s.Name + ": bad spec " + spec)
 	}
+	// stream `loops`: half of the cases are sent (and rendered) with the entries of every map of the environment in a
+	// pseudo-random order, drawn from a private RNG of the case. The Go maps are the same; the reference's expectation
+	// was computed from the canonical order; the model has to sort where the code sorts.
+	if s.Name == "loops" {
+		if gs := NewRNG(r.Seed, "loops/shuffle/"+spec); gs.Chance(50) {
+			for _, v := range c.Env {
+				if hasMultiMap(v) {
+					r.Count("entries=shuffled")
+					break
+				}
+			}
+			c.Env = ShuffledEnv(c.Env, gs)
+		}
+	}
 	full := c.Src + specComment(s.Name, spec)
 	cl := renderCaseLine(c.Cfg, c.Path, c.Line, full, c.Env)
 	res := s.render(c, full)
@@ -197,7 +211,7 @@ func (s ctlStream) replay(r *Run, f []string) string {
 	if swap {
 		c = c.swapped()
 	}
-	if c.Src+specComment(s.Name, spec) != src || EncEnv(c.Env) != f[5] || c.Cfg.Enc() != f[1] || c.Path != path || c.Line != line {
+	if c.Src+specComment(s.Name, spec) != src || EncEnv(c.Env) != EncEnv(CanonEnv(env)) || c.Cfg.Enc() != f[1] || c.Path != path || c.Line != line {
 		r.Count("replay=spec-does-not-rebuild-this-case") // an edited case: no oracle
 		return res
 	}
